@@ -283,12 +283,14 @@ def jsLocals (f : FuncDef) (ind : Nat) : R Str := do
   let t := (names.map fun n => indentOf ind ++ S "var " ++ n.str ++ S ";\n").flatten
   pure (if f.localVars.isEmpty then t else t ++ S "\n")
 
+/-- the statement loop of the three wrappers -/
+def bodyJs (stmts : List Node) (ind : Nat) : R Str := (bodyStmts stmts).bind fun b => jsStmts true b ind
+
 /-- a method of a class/factory wrapper -/
 def jsMethod (f : FuncDef) : R Str := do
   let ps ← if f.params.isEmpty then pure [] else jsParams f true
   let lv ← jsLocals f 2
-  let body ← bodyStmts f.stmts
-  let btxt ← jsStmts true body 2
+  let btxt ← bodyJs f.stmts 2
   pure (S "\n" ++ indentOf 1 ++ f.name ++ S "(" ++ ps ++ S ") {\n" ++ lv ++ btxt ++ indentOf 1 ++ S "}\n")
 
 def jsMethods : List FuncDef → R Str
@@ -317,8 +319,7 @@ def commonFuncJs (f : FuncDef) : R Str := do
   let fname := if f.name = S "new" then S "birth" else f.name
   let ps ← if f.params.isEmpty then pure [] else jsParams f false
   let lv ← jsLocals f 1
-  let body ← bodyStmts f.stmts
-  let btxt ← jsStmts true body 1
+  let btxt ← bodyJs f.stmts 1
   pure (S "function " ++ fname ++ S "(" ++ ps ++ S ") {\n" ++ lv ++ btxt ++ S "}\n")
 
 def commonFuncsJs : List FuncDef → Bool → R Str
